@@ -12,6 +12,8 @@
 //       to the reader; reads with random buffer sizes.  Single-threaded, deterministic.
 //   SW  two goroutines Write concurrently on one SecretConnection.
 //   HS  handshakes against honest and dishonest peers (ideal-signature projection).
+//   TP  real p2p.MultiplexTransport dials / accepts against honest peers, impostor listeners and
+//       dishonest raw peers (external half: verif_c20x_test.go, package conn_test).
 //   MD  packetiser stepped deterministically (trySendBytes / sendPacketMsg), packets fed to a
 //       real started MConnection.
 //   MR  crafted packet streams (arbitrary interleavings, mutations) fed to a real MConnection.
@@ -284,7 +286,14 @@ type c20End struct {
 	passthrough bool
 	captured    []byte // bytes written while not in passthrough mode
 	log         []byte // everything ever written
+	// fault injection (data phase only): the failAt-th Write call from now on reports an error to
+	// the caller although the bytes are on the wire (a write deadline that fires after the bytes
+	// have left); what the network then does with the frame is the edit script's business
+	failAt int
+	failed int // number of injected failures so far
 }
+
+var errC20Injected = errors.New("verif: injected write error (i/o timeout)")
 
 func (e *c20End) Write(p []byte) (int, error) {
 	e.mu.Lock()
@@ -293,9 +302,20 @@ func (e *c20End) Write(p []byte) (int, error) {
 	if !pt {
 		e.captured = append(e.captured, p...)
 	}
+	fail := false
+	if !pt && e.failAt > 0 {
+		e.failAt--
+		if e.failAt == 0 {
+			fail = true
+			e.failed++
+		}
+	}
 	e.mu.Unlock()
 	if pt {
 		e.peer.inbound.Write(p)
+	}
+	if fail {
+		return 0, errC20Injected
 	}
 	return len(p), nil
 }
@@ -341,7 +361,11 @@ func c20Timeout(d time.Duration, f func()) bool {
 // after a few hangs the remaining cases fail fast (a hang is an oracle failure, never a stuck check)
 var c20Hangs int
 
-const c20HSTimeout = 10 * time.Second
+// every wall-clock deadline of this harness is a safety net against a stuck implementation, far above
+// anything a slow machine needs (the check runs under load averages of 40-60): a deadline that
+// fires means "really stuck", never "slow"
+const c20HSTimeout = 60 * time.Second
+const c20Stuck = 60 * time.Second
 
 func c20HonestPair(ka, kb *ecdsa.PrivateKey) (ea, eb *c20End, ra, rb c20HSResult, ok bool) {
 	ea, eb = newC20Ends()
@@ -377,6 +401,8 @@ func c20ErrClass(err error) string {
 		return "chunklen"
 	case err == errC20WouldBlock:
 		return "wouldblock"
+	case err == errC20Injected:
+		return "err"
 	}
 	return "other:" + strings.ReplaceAll(err.Error(), " ", "_")
 }
@@ -398,6 +424,9 @@ type c20Direction struct {
 	delivered []byte   // plaintext delivered
 	errSeen   bool
 	closed    bool
+	nextCtr   uint64 // counter under which the next frame of this direction must be sealed
+	nframes   int    // frames sealed so far in the data phase
+	faultPos  int    // index in pending of the last frame whose write reported an injected error, -1 = none
 }
 
 func c20SCCase(o *c20Out, idx int, r *c20Rand) {
@@ -430,9 +459,16 @@ func c20SCCase(o *c20Out, idx int, r *c20Rand) {
 	if c20KeyID(ra.sc.RemotePubKey()) != c20KeyID(kb.PublicKey) || c20KeyID(rb.sc.RemotePubKey()) != c20KeyID(ka.PublicKey) {
 		o.Fail(0, "identity", "honest handshake: wrong remote public key")
 	}
-	dirs := []*c20Direction{{tamperOff: -1}, {tamperOff: -1}}
+	dirs := []*c20Direction{{tamperOff: -1, faultPos: -1, nextCtr: c20Ctr(ra.sc.sendNonce)}, {tamperOff: -1, faultPos: -1, nextCtr: c20Ctr(rb.sc.sendNonce)}}
 	step := 0
 	overflow := r.Chance(1, 14)
+	// write-fault family: some underlying conn.Write calls report an error (the frame is on the
+	// wire all the same), the caller keeps writing, the man in the middle works on the frames
+	// around the failed one
+	faultCase := !overflow && r.Chance(1, 4)
+	if faultCase {
+		o.Count("sc:fault-family")
+	}
 	if overflow {
 		// synthetic state: counters close to 2^64-1 (unreachable in practice; the code must panic
 		// rather than reuse a nonce)
@@ -440,6 +476,7 @@ func c20SCCase(o *c20Out, idx int, r *c20Rand) {
 		v := ^uint64(0) - uint64(r.Intn(3))
 		binary.LittleEndian.PutUint64(scs[w].sendNonce[4:], v)
 		binary.LittleEndian.PutUint64(scs[1-w].recvNonce[4:], v)
+		dirs[w].nextCtr = v
 		o.InOnly(fmt.Sprintf("SETCTR %d s %d", w, v))
 		o.InOnly(fmt.Sprintf("SETCTR %d r %d", 1-w, v))
 		o.Count("sc:overflow-family")
@@ -463,6 +500,21 @@ func c20SCCase(o *c20Out, idx int, r *c20Rand) {
 			}
 			data := r.Bytes(sz)
 			total += sz
+			nchunks := (sz + dataMaxSize - 1) / dataMaxSize
+			fault := -1 // index (within this Write) of the frame whose conn.Write fails
+			if faultCase && nchunks > 0 && r.Chance(1, 2) {
+				switch r.Intn(3) {
+				case 0:
+					fault = 0
+				case 1:
+					fault = nchunks - 1
+				default:
+					fault = r.Intn(nchunks)
+				}
+				ends[w].mu.Lock()
+				ends[w].failAt = fault + 1
+				ends[w].mu.Unlock()
+			}
 			var n int
 			var err error
 			panicked := false
@@ -474,6 +526,9 @@ func c20SCCase(o *c20Out, idx int, r *c20Rand) {
 				}()
 				n, err = scs[w].Write(data)
 			}()
+			ends[w].mu.Lock()
+			ends[w].failAt = 0
+			ends[w].mu.Unlock()
 			cls := c20ErrClass(err)
 			if panicked {
 				cls = "panic"
@@ -484,7 +539,12 @@ func c20SCCase(o *c20Out, idx int, r *c20Rand) {
 				o.Mark("sc:write-panic")
 			}
 			step++
-			o.Op(fmt.Sprintf("W %d %s", w, c20Hex(data)), fmt.Sprintf("W n=%d %s", n, cls))
+			if fault >= 0 {
+				o.Op(fmt.Sprintf("WF %d %s %d", w, c20Hex(data), fault), fmt.Sprintf("W n=%d %s", n, cls))
+				o.Count(fmt.Sprintf("sc:write-fault:%s", map[bool]string{true: "last-frame", false: "inner-frame"}[fault == nchunks-1]))
+			} else {
+				o.Op(fmt.Sprintf("W %d %s", w, c20Hex(data)), fmt.Sprintf("W n=%d %s", n, cls))
+			}
 			o.Count(fmt.Sprintf("sc:write-size:%s", c20SizeClass(sz)))
 			cap := ends[w].captured
 			ends[w].captured = nil
@@ -494,12 +554,46 @@ func c20SCCase(o *c20Out, idx int, r *c20Rand) {
 			nfr := 0
 			for len(cap) >= c20Sealed {
 				f := append([]byte(nil), cap[:c20Sealed]...)
+				// direct oracle (nonce discipline): the i-th sealed frame of a direction is sealed under
+				// counter c0+i - whatever happened to the underlying writes before it
+				var nonce [aeadNonceSize]byte
+				binary.LittleEndian.PutUint64(nonce[4:], d.nextCtr)
+				if _, e := scs[1-w].recvAead.Open(nil, nonce[:], f, nil); e != nil {
+					how := "skipped or out of sequence"
+					if d.nextCtr > 0 {
+						binary.LittleEndian.PutUint64(nonce[4:], d.nextCtr-1)
+						if _, e2 := scs[1-w].recvAead.Open(nil, nonce[:], f, nil); e2 == nil {
+							how = "sealed under the SAME nonce as the previous frame (nonce reuse)"
+						}
+					}
+					o.Fail(step, "nonce-sequence", fmt.Sprintf("dir %d: data frame #%d is not sealed under counter %d: %s", w, d.nframes, d.nextCtr, how))
+				}
+				d.nextCtr++
+				d.nframes++
 				d.pending = append(d.pending, f)
 				d.hist = append(d.hist, f)
 				cap = cap[c20Sealed:]
 				nfr++
 			}
-			if !panicked {
+			switch {
+			case panicked:
+				d.written = append(d.written, data[:c20Min(len(data), nfr*dataMaxSize)]...)
+			case fault >= 0:
+				// the failing frame and those before it are on the wire, nothing after it; the caller
+				// is told how many bytes went out before the failing frame
+				if err == nil {
+					o.Fail(step, "write-error-swallowed", fmt.Sprintf("the underlying conn.Write of frame %d failed, Write(%d bytes) = %d, nil", fault, len(data), n))
+				}
+				if n != fault*dataMaxSize {
+					o.Fail(step, "write-count", fmt.Sprintf("Write(%d bytes) with a failure at frame %d returned n=%d, want %d", len(data), fault, n, fault*dataMaxSize))
+				}
+				if nfr != fault+1 {
+					o.Fail(step, "frame-count", fmt.Sprintf("%d frames handed to the conn by a Write that failed at frame %d", nfr, fault))
+				}
+				d.written = append(d.written, data[:c20Min(len(data), nfr*dataMaxSize)]...)
+				d.faultPos = len(d.pending) - 1
+				o.Mark(fmt.Sprintf("sc:fault:%d/%d", fault, nchunks))
+			default:
 				if n != len(data) || err != nil {
 					o.Fail(step, "write-short", fmt.Sprintf("Write(%d bytes) = %d, %v", len(data), n, err))
 				}
@@ -507,14 +601,41 @@ func c20SCCase(o *c20Out, idx int, r *c20Rand) {
 					o.Fail(step, "frame-count", fmt.Sprintf("%d bytes -> %d frames", len(data), nfr))
 				}
 				d.written = append(d.written, data...)
-			} else {
-				d.written = append(d.written, data[:c20Min(len(data), nfr*dataMaxSize)]...)
 			}
 		}
 		// ---- forward with an edit script
 		var toks []string
 		last := rd == rounds-1 || r.Chance(1, 5)
-		if tamperCase && len(d.pending) > 0 && r.Chance(2, 3) {
+		if d.faultPos >= len(d.pending) {
+			d.faultPos = -1
+		}
+		if d.faultPos >= 0 && r.Chance(2, 3) {
+			// the man in the middle works around the frame whose write was reported as failed
+			for i := 0; i < d.faultPos; i++ {
+				toks = append(toks, "K")
+			}
+			switch r.Intn(8) {
+			case 0, 1:
+				toks = append(toks, "K", "D") // the failed frame arrives, the next one is removed
+			case 2:
+				toks = append(toks, "D") // the failed frame is lost
+			case 3:
+				toks = append(toks, fmt.Sprintf("T:%d", 1+r.Intn(c20Sealed-1))) // only part of it left
+			case 4:
+				toks = append(toks, "K", "S")
+			case 5:
+				toks = append(toks, "K", "K", "D")
+			case 6:
+				toks = append(toks, "U")
+			case 7:
+				toks = append(toks, "K") // nothing else happens
+			}
+			if r.Chance(3, 4) {
+				toks = append(toks, "A")
+			}
+			d.faultPos = -1
+			o.Count("sc:fault-script")
+		} else if tamperCase && len(d.pending) > 0 && r.Chance(2, 3) {
 			pos := r.Intn(len(d.pending))
 			for i := 0; i < pos; i++ {
 				toks = append(toks, "K")
@@ -548,6 +669,7 @@ func c20SCCase(o *c20Out, idx int, r *c20Rand) {
 			}
 		}
 		added := c20Forward(o, d, dirs[rdr], ends[rdr].inbound, toks, scs[w])
+		d.faultPos = -1
 		step++
 		o.Op(fmt.Sprintf("F %d %s", w, strings.Join(toks, " ")), fmt.Sprintf("F %d", added))
 		sig += strings.Join(toks, "")
@@ -815,6 +937,7 @@ func c20Forward(o *c20Out, d, other *c20Direction, q *c20Queue, toks []string, w
 			binary.LittleEndian.PutUint32(frame, uint32(arg(1)))
 			sealed := wsc.sendAead.Seal(nil, wsc.sendNonce[:], frame, nil)
 			incrNonce(wsc.sendNonce)
+			d.nextCtr++
 			tamper()
 			put(sealed)
 		case "C":
@@ -887,7 +1010,7 @@ func c20SWCase(o *c20Out, idx int, r *c20Rand) {
 			}
 		}(w)
 	}
-	if !c20Timeout(10*time.Second, wg.Wait) {
+	if !c20Timeout(c20Stuck, wg.Wait) {
 		o.Fail(0, "hang", "concurrent writers did not finish")
 		return
 	}
@@ -975,12 +1098,17 @@ type c20EvilOpts struct {
 	gotRemSig []byte
 	gotRemKey ecdsa.PublicKey
 	challenge [32]byte
+	ephPub    *[32]byte         // sent instead of a fresh ephemeral public key (low-order points)
+	sc        *SecretConnection // the evil end's view of the connection once the auth messages are exchanged
 }
 
 // c20EvilHandshake follows MakeSecretConnection but lets the caller choose the claimed key and
 // the signature, and does not verify anything.
 func c20EvilHandshake(conn io.ReadWriteCloser, op *c20EvilOpts) error {
 	locEphPub, locEphPriv := genEphKeys()
+	if op.ephPub != nil {
+		locEphPub = op.ephPub
+	}
 	remEphPub, err := shareEphPubKey(conn, locEphPub)
 	if err != nil {
 		return err
@@ -993,6 +1121,11 @@ func c20EvilHandshake(conn io.ReadWriteCloser, op *c20EvilOpts) error {
 	dhSecret, err := computeDHSecret(remEphPub, locEphPriv)
 	if err != nil {
 		return err
+	}
+	if op.ephPub != nil {
+		// a low-order point sent as ephemeral key: whoever accepts it ends up with the all-zero
+		// shared secret, which the attacker therefore knows
+		dhSecret = new([32]byte)
 	}
 	transcript.AppendMessage(labelDHSecret, dhSecret[:])
 	recvSecret, sendSecret := deriveSecrets(dhSecret, locIsLeast)
@@ -1016,6 +1149,7 @@ func c20EvilHandshake(conn io.ReadWriteCloser, op *c20EvilOpts) error {
 		return err
 	}
 	op.gotRemKey, op.gotRemSig = msg.Key, msg.Sig
+	op.sc = sc
 	return nil
 }
 
@@ -1029,6 +1163,24 @@ func c20Sign(k *ecdsa.PrivateKey, ch [32]byte) []byte {
 
 var c20Session = 100
 
+// the low-order points of Curve25519 (X25519 maps them to the all-zero shared secret)
+var c20LowOrder = func() [][]byte {
+	var out [][]byte
+	for _, h := range []string{
+		"0000000000000000000000000000000000000000000000000000000000000000",
+		"0100000000000000000000000000000000000000000000000000000000000000",
+		"e0eb7a7c3b41b8ae1656e3faf19fc46ada098deb9c32b1fd866205165f49b800",
+		"5f9c95bca3508c24b1d0b1559c83ef5b04445cc4581c8e86d8224eddd09f1157",
+		"ecffffffffffffffffffffffffffffffffffffffffffffffffffffffffffff7f",
+		"edffffffffffffffffffffffffffffffffffffffffffffffffffffffffffff7f",
+		"eeffffffffffffffffffffffffffffffffffffffffffffffffffffffffffff7f",
+	} {
+		b, _ := hex.DecodeString(h)
+		out = append(out, b)
+	}
+	return out
+}()
+
 // c20VictimVsEvil runs a real MakeSecretConnection (victim key kv) against the evil peer.
 func c20VictimVsEvil(kv *ecdsa.PrivateKey, op *c20EvilOpts) (res c20HSResult, evilErr error, ok bool) {
 	ev, ee := newC20Ends()
@@ -1037,7 +1189,14 @@ func c20VictimVsEvil(kv *ecdsa.PrivateKey, op *c20EvilOpts) (res c20HSResult, ev
 	}
 	var wg sync.WaitGroup
 	wg.Add(2)
-	go func() { defer wg.Done(); res.sc, res.err = MakeSecretConnection(ev, kv) }()
+	go func() {
+		defer wg.Done()
+		res.sc, res.err = MakeSecretConnection(ev, kv)
+		if res.err != nil {
+			// a victim that gives up closes the connection
+			ee.inbound.Close()
+		}
+	}()
 	go func() {
 		defer wg.Done()
 		evilErr = c20EvilHandshake(ee, op)
@@ -1057,7 +1216,7 @@ func c20VictimVsEvil(kv *ecdsa.PrivateKey, op *c20EvilOpts) (res c20HSResult, ev
 
 func c20HSCase(o *c20Out, idx int, r *c20Rand) {
 	o.Case(idx, fmt.Sprintf("CASE %d HS", idx))
-	scen := r.Intn(9)
+	scen := r.Intn(11)
 	vi, ei, wi := r.Intn(3), 3+r.Intn(3), 6+r.Intn(2) // V = impersonated identity, E = evil, W = victim
 	kv, ke, kw := c20Key(vi), c20Key(ei), c20Key(wi)
 	V, E, W := vi+1, ei+1, wi+1
@@ -1199,6 +1358,22 @@ func c20HSCase(o *c20Out, idx int, r *c20Rand) {
 		o.Op(fmt.Sprintf("H %d %d 0 0", sid, V), obsOf(res))
 		check(1, res, V, 0, 0, false)
 		o.Count("hs:absent")
+	case 9, 10: // low-order ephemeral public key: the shared secret would be known to everybody
+		pt := c20LowOrder[r.Intn(len(c20LowOrder))]
+		var eph [32]byte
+		copy(eph[:], pt)
+		// the rest of the evil peer's handshake is as good as it can be (own key, own signature)
+		op := &c20EvilOpts{ephPub: &eph, claim: ke.PublicKey, sigFor: func(ch [32]byte) []byte { return c20Sign(ke, ch) }}
+		res, _, ok := c20VictimVsEvil(kw, op)
+		if !ok {
+			o.Fail(0, "hang", "handshake timed out")
+			return
+		}
+		o.Op(fmt.Sprintf("H %d %d 0 0", sid, E), obsOf(res))
+		if res.err == nil && res.sc != nil {
+			o.Fail(1, "low-order-ephemeral", fmt.Sprintf("handshake completed although the peer's ephemeral key %x is a low-order point (all-zero shared secret)", pt))
+		}
+		o.Count("hs:low-order-ephemeral")
 	}
 	o.Mark(fmt.Sprintf("hs:%d", scen))
 }
@@ -1369,7 +1544,7 @@ func c20FeedReceiver(o *c20Out, ds []c20Desc, maxp int, stream []byte, pings boo
 	select {
 	case e := <-rc.errCh:
 		cls = c20MErrClass(e)
-	case <-time.After(10 * time.Second):
+	case <-time.After(c20Stuck):
 		cls = "hang"
 		c20Hangs++
 		o.Fail(0, "hang", "receiver neither delivered the end of stream nor reported an error")
@@ -1379,6 +1554,21 @@ func c20FeedReceiver(o *c20Out, ds []c20Desc, maxp int, stream []byte, pings boo
 	events = rc.events
 	rc.mu.Unlock()
 	return
+}
+
+// c20EncodePacketBody is the protobuf encoding of the wrapped packet without the length prefix
+func c20EncodePacketBody(p *kp2p.PacketMsg) []byte {
+	bz, err := mustWrapPacket(p).Marshal()
+	if err != nil {
+		panic(err)
+	}
+	return bz
+}
+
+// c20PacketLimit is the size limit the receiving MConnection gives its protoio reader
+func c20PacketLimit(maxp int) int {
+	mc := NewMConnectionWithConfig(&c20NullConn{}, []*ChannelDescriptor{{ID: 1, Priority: 1}}, nil, nil, c20Cfg(maxp))
+	return mc._maxPacketMsgSize
 }
 
 func c20EncodePacket(p *kp2p.PacketMsg) []byte {
@@ -1705,7 +1895,21 @@ func c20MRCase(o *c20Out, idx int, r *c20Rand) {
 	mut := "none"
 	if mutate && len(stream) > 0 {
 		i := r.Intn(len(stream))
-		switch r.Intn(7) {
+		switch r.Intn(9) {
+		case 7, 8: // encoded packet size at the receiver's protoio limit: limit-1, limit, limit+1, limit+2
+			limit := c20PacketLimit(maxp)
+			target := limit + r.Intn(4) - 1
+			ln := c20Max(0, maxp+target-limit)
+			for k := 0; k < 6; k++ {
+				sz := len(c20EncodePacketBody(&kp2p.PacketMsg{ChannelID: stream[i].ch, EOF: stream[i].eof, Data: make([]byte, ln)}))
+				if sz == target {
+					break
+				}
+				ln = c20Max(0, ln+target-sz)
+			}
+			stream[i].data = r.Bytes(ln)
+			sz := len(c20EncodePacketBody(&kp2p.PacketMsg{ChannelID: stream[i].ch, EOF: stream[i].eof, Data: stream[i].data}))
+			mut = fmt.Sprintf("size-limit%+d", sz-limit)
 		case 0: // EOF flag cleared
 			stream[i].eof = false
 			mut = "eof-cleared"
@@ -1753,10 +1957,42 @@ func c20MRCase(o *c20Out, idx int, r *c20Rand) {
 		o.InOnly(fmt.Sprintf("K %d %s %s", p.ch, map[bool]string{true: "1", false: "0"}[p.eof], c20Hex(p.data)))
 		raw = append(raw, c20EncodePacket(&kp2p.PacketMsg{ChannelID: p.ch, EOF: p.eof, Data: p.data})...)
 	}
+	if r.Chance(1, 8) {
+		// the stream ends with a length prefix the receiver must refuse before allocating anything:
+		// just above the limit, around 2^31/2^32, and the values that are negative as a Go int
+		limit := uint64(c20PacketLimit(maxp))
+		big := []uint64{limit + 1, limit + 2, 1 << 31, 1<<32 - 1, 1 << 32, 1<<63 - 1, 1 << 63, 1<<63 + 1, ^uint64(0)}[r.Intn(9)]
+		var vb [binary.MaxVarintLen64]byte
+		raw = append(raw, vb[:binary.PutUvarint(vb[:], big)]...)
+		raw = append(raw, 0x1a, 0x00, 0x00)
+		o.InOnly(fmt.Sprintf("KBIG %d", big))
+		if mut == "none" {
+			mut = "declared-length"
+		} else {
+			mut += "+declared-length"
+		}
+		o.Count("mr:declared-length")
+	}
 	events, cls := c20FeedReceiver(o, ds, maxp, raw, pings)
 	c20EmitRX(o, events, cls)
 	if mut == "none" {
 		c20CheckDeliveries(o, ds, sent, events, cls, true, "")
+	} else if mut == "declared-length" {
+		// an honest stream followed by a refused length prefix: everything before it is delivered,
+		// then the receiver stops with the size error (never a panic, a hang or a silent end)
+		anyOver := false
+		for _, d := range ds {
+			for _, m := range sent[d.id] {
+				anyOver = anyOver || len(m) > d.recvcap
+			}
+		}
+		eff := cls
+		if cls == "toobig" {
+			eff = "eof"
+		} else if !anyOver {
+			o.Fail(0, "declared-length-not-refused", "receiver ended with "+cls+" on a length prefix above its limit")
+		}
+		c20CheckDeliveries(o, ds, sent, events, eff, true, "")
 	} else {
 		// mutated stream: whatever is delivered must still never exceed a channel's capacity
 		for _, e := range events {
@@ -1828,7 +2064,9 @@ func c20MXCase(o *c20Out, idx int, r *c20Rand) {
 	var wg sync.WaitGroup
 	sentMu := sync.Mutex{}
 	sent := map[byte][][]byte{}
-	deadline := time.Now().Add(8 * time.Second)
+	// a sender retries for as long as the connection is up; giving up after c20Stuck is a hang
+	deadline := time.Now().Add(c20Stuck)
+	stuck := make([]bool, len(ds))
 	useSend := r.Chance(1, 2)
 	for ci := range ds {
 		wg.Add(1)
@@ -1837,7 +2075,11 @@ func c20MXCase(o *c20Out, idx int, r *c20Rand) {
 			id := ds[ci].id
 			for _, m := range plans[ci] {
 				for {
-					if !a.IsRunning() || time.Now().After(deadline) {
+					if !a.IsRunning() {
+						return
+					}
+					if time.Now().After(deadline) {
+						stuck[ci] = true
 						return
 					}
 					var ok bool
@@ -1857,18 +2099,31 @@ func c20MXCase(o *c20Out, idx int, r *c20Rand) {
 			}
 		}(ci)
 	}
-	if !c20Timeout(12*time.Second, wg.Wait) {
+	anyStuck := false
+	if !c20Timeout(c20Stuck+30*time.Second, wg.Wait) {
 		c20Hangs++
+		anyStuck = true
 		o.Fail(0, "hang", "senders did not finish")
 	}
+	for ci := range ds {
+		if stuck[ci] {
+			anyStuck = true
+			c20Hangs++
+			o.Fail(0, "hang", fmt.Sprintf("channel %x: a message was refused for %v although the connection stayed up", ds[ci].id, c20Stuck))
+		}
+	}
 	if a.IsRunning() {
-		c20Timeout(5*time.Second, a.FlushStop)
+		if !c20Timeout(c20Stuck, a.FlushStop) {
+			anyStuck = true
+			c20Hangs++
+			o.Fail(0, "hang", "FlushStop did not return")
+		}
 	}
 	var cls string
 	select {
 	case e := <-rc.errCh:
 		cls = c20MErrClass(e)
-	case <-time.After(10 * time.Second):
+	case <-time.After(c20Stuck):
 		cls = "hang"
 		c20Hangs++
 		o.Fail(0, "hang", "receiver neither saw the end of the stream nor reported an error")
@@ -1932,7 +2187,7 @@ func c20MXCase(o *c20Out, idx int, r *c20Rand) {
 			o.Op(fmt.Sprintf("V %d", ci), fmt.Sprintf("V ch=%d n=%d d=%s", d.id, perN[d.id], hex.EncodeToString(dg[:8])))
 		}
 		for ci, d := range ds {
-			if len(sent[d.id]) != len(plans[ci]) {
+			if len(sent[d.id]) != len(plans[ci]) && !anyStuck {
 				o.Fail(0, "send-refused", fmt.Sprintf("channel %x: %d of %d messages accepted although the connection stayed up", d.id, len(sent[d.id]), len(plans[ci])))
 			}
 		}
@@ -1946,6 +2201,58 @@ func c20MXCase(o *c20Out, idx int, r *c20Rand) {
 		order = append(order, fmt.Sprint(e[0].(byte)))
 	}
 	o.Mark(fmt.Sprintf("mx:%d:%s:%s", maxp, cls, strings.Join(order, ",")))
+}
+
+// ---------------------------------------------------------------------------- TP: transport-level identity
+//
+// The cases that dial through the real p2p.MultiplexTransport live in the external half of the
+// harness (package conn_test, verif_c20x_test.go): lib/p2p imports this package, so only an
+// external test package can import both.  It registers itself here.
+
+// C20Ext is what the external half gets from this file.
+type C20Ext struct {
+	Idx   int
+	Intn  func(n int) int
+	Op    func(in, obs string)
+	Fail  func(step int, class, detail string)
+	Count func(k string)
+	Mark  func(k string)
+	// Key returns the i-th deterministic identity key (identity number i+1), NKeys of them
+	Key   func(i int) *ecdsa.PrivateKey
+	NKeys int
+	// Evil runs the dishonest secret-connection handshake on c: claims the public key `claim`,
+	// signs this session's challenge with `signer` (nil: random bytes) and verifies nothing.
+	// Returns the evil end's connection once both auth messages have been exchanged.
+	Evil func(c io.ReadWriteCloser, claim ecdsa.PublicKey, signer *ecdsa.PrivateKey) (io.ReadWriter, error)
+}
+
+// C20TPCase is set by the external half's init.
+var C20TPCase func(x *C20Ext)
+
+func c20TPCase(o *c20Out, idx int, r *c20Rand) {
+	o.Case(idx, fmt.Sprintf("CASE %d TP", idx))
+	if C20TPCase == nil {
+		o.Fail(0, "harness", "the transport half of the harness (verif_c20x_test.go) is not linked in")
+		return
+	}
+	C20TPCase(&C20Ext{
+		Idx: idx, Intn: r.Intn, Op: o.Op, Fail: o.Fail, Count: o.Count, Mark: o.Mark,
+		Key: c20Key, NKeys: len(c20Keys),
+		Evil: func(c io.ReadWriteCloser, claim ecdsa.PublicKey, signer *ecdsa.PrivateKey) (io.ReadWriter, error) {
+			op := &c20EvilOpts{claim: claim, sigFor: func(ch [32]byte) []byte {
+				if signer == nil {
+					g := r.Bytes(65)
+					g[64] = byte(r.Intn(2))
+					return g
+				}
+				return c20Sign(signer, ch)
+			}}
+			if err := c20EvilHandshake(c, op); err != nil {
+				return nil, err
+			}
+			return op.sc, nil
+		},
+	})
 }
 
 // ---------------------------------------------------------------------------- entry point
@@ -1967,7 +2274,7 @@ func TestVerifC20(t *testing.T) {
 		c20Keys = append(c20Keys, k)
 	}
 	o := c20Open(*c20Dir)
-	o.rule = "a case is one connection scenario: SC/SW = handshake + writes, an edit script on the sealed frames, reads with random buffer sizes; HS = one handshake against an honest or dishonest peer; MD/MR/MX = one MConnection run (channels, message mix, packet interleaving). Non-trivial = distinct edit script (SC), distinct write linearisation (SW), distinct scenario (HS), distinct (channels, max payload, mutation, end class, delivery order) (M*)"
+	o.rule = "a case is one connection scenario: SC/SW = handshake + writes (some with injected underlying write errors), an edit script on the sealed frames, reads with random buffer sizes; HS = one handshake against an honest or dishonest peer; TP = a few real MultiplexTransport dials/accepts against honest, impostor and dishonest peers; MD/MR/MX = one MConnection run (channels, message mix, packet interleaving). Non-trivial = distinct edit script (SC), distinct write linearisation (SW), distinct scenario (HS), distinct (direction, remote kind, key/ID relation, outcome) (TP), distinct (channels, max payload, mutation, end class, delivery order) (M*)"
 	root := c20New(*c20Seed)
 	kinds := []string{}
 	for i := 0; i < *c20N; i++ {
@@ -1977,13 +2284,16 @@ func TestVerifC20(t *testing.T) {
 		r := root.Fork(uint64(i))
 		var kind string
 		switch i % 20 {
-		case 0, 1, 2, 3, 4, 5, 6, 7:
+		case 0, 1, 2, 3, 4, 5, 6:
 			kind = "SC"
 			c20SCCase(o, i, r)
+		case 7, 11:
+			kind = "TP"
+			c20TPCase(o, i, r)
 		case 8:
 			kind = "SW"
 			c20SWCase(o, i, r)
-		case 9, 10, 11:
+		case 9, 10:
 			kind = "HS"
 			c20HSCase(o, i, r)
 		case 12, 13, 14:
